@@ -10,7 +10,7 @@ RULE = ("exhaustive: every rank pattern (weak ordering) of lengths 2..L (quick 6
         "mk_score / mk_variance_s / mk_z_score / mk_p_value / mk_sens_slope / mann_kendall_trend_1d and both gufunc wrappers, compared with "
         "the Lean model (S, tau, 18 Var, Z, slope; bit level for S, Var, tau) and an independent O(n^2) oracle (+ math.erfc for p); random series "
         "to length 200 over int16 and float32 with heavy ties; symmetries on the real code (strictly increasing maps, negation, reversal, "
-        "slope scaling); all-nodata pixel; mktrend accessor. Non-trivial = distinct pattern with n >= 3.")
+        "slope scaling); critical-value boundary: for every length 8..200 x 5 tie structures the two attainable scores bracketing z_crit, both signs; all-nodata pixel; mktrend accessor. Non-trivial = distinct pattern with n >= 3.")
 LEVEL_NOTE = ("mkS_def, mkTau_def, mkVar18_def, mkZ_spec, mkP_flag(_iff_lt_alpha), slopesFrom_spec / median_spec and the invariance theorems are proved "
               "for the Lean model; erf, sqrt and the critical value are parameters (hypotheses StrictMono erf etc. are named in the theorems); their "
               "float values are sampled against math.erfc / the SciPy quantile.")
@@ -44,6 +44,43 @@ def oracle(x):
     slope = float(np.median(slopes))
     trend = 0 if not p < 0.05 else (1 if z > 0 else (-1 if z < 0 else 0))
     return dict(s=s, tau=tau, var=var, z=z, p=p, slope=slope, trend=trend)
+
+
+def boundary_series(n, groups):
+    """integer series of length n with the given tie-group sizes whose MK score is the smallest one with Z > z_crit ('hi')
+    and the next lower attainable one ('lo'); built from the sorted arrangement by adjacent swaps (each lowers S by 2)."""
+    vals, v = [], 0
+    for g in groups:
+        vals += [v] * g
+        v += 1
+    while len(vals) < n:
+        vals.append(v)
+        v += 1
+    vals.sort()
+    smax = n * (n - 1) // 2 - sum(g * (g - 1) // 2 for g in groups)
+    var = (n * (n - 1) * (2 * n + 5) - sum(g * (g - 1) * (2 * g + 5) for g in groups)) / 18
+    s_hi = None
+    for sc in range(smax % 2 or 2, smax + 1, 2):
+        if (sc - 1) / math.sqrt(var) > ZCRIT:
+            s_hi = sc
+            break
+    if s_hi is None:
+        return
+    for which, target in (("hi", s_hi), ("lo", s_hi - 2)):
+        if target < 1:
+            continue
+        x = list(vals)
+        need = (smax - target) // 2
+        for end in range(n):
+            if need == 0:
+                break
+            for j in range(n - 1, end, -1):
+                if need == 0:
+                    break
+                if x[j - 1] < x[j]:
+                    x[j - 1], x[j] = x[j], x[j - 1]
+                    need -= 1
+        yield which, x
 
 
 def run(ctx: core.Ctx):
@@ -127,6 +164,42 @@ def run(ctx: core.Ctx):
                 if not good:
                     ctx.fail("_mann_kendall_trend_gu", dict(x=x, dtype=dt), dict(tau=float(tau[k]), p=float(p[k]), slope=float(slope[k]), trend=int(trend[k])), o)
             ctx.count(f"gufunc/{dt}", len(items))
+    # critical-value boundary: for every length 8..200 and four tie structures, the two attainable scores that bracket the 5 % critical
+    # value (smallest S with Z > z_crit: flag must be sign(S); the next lower one: flag must be 0), both signs, 1-D kernel and both gufuncs
+    nb = 0
+    for n in range(8, 201):
+        for groups in ((), (2,), (2, 2), (3, 3, 3, 3, 3), (10, 4)):
+            if sum(groups) > n - 2:
+                continue
+            for which, x in boundary_series(n, groups):
+                xa = np.array(x, dtype="float64")
+                sgn = np.sign(xa[None, :] - xa[:, None])
+                s_ref = int(np.triu(sgn, 1).sum())
+                ties = np.unique(xa, return_counts=True)[1]
+                var = (n * (n - 1) * (2 * n + 5) - int(sum(t * (t - 1) * (2 * t + 5) for t in ties))) / 18
+                z_ref = (s_ref - 1) / math.sqrt(var)
+                if abs(z_ref - ZCRIT) < 1e-9:
+                    continue
+                want = 1 if z_ref > ZCRIT else 0
+                nb += 1
+                ctx.case(("boundary", n, groups, which), sample=dict(n=n, tie_groups=list(groups), S=s_ref, Z=z_ref, flag=want))
+                for sign in (1, -1):
+                    ya = sign * xa
+                    _, p1, _, tr = stats.mann_kendall_trend_1d(ya)
+                    g16 = stats._mann_kendall_trend_gu(ya.astype("int16"))
+                    g32 = stats._mann_kendall_trend_gu_nd(ya.astype("float32"), -9999.0)
+                    got = dict(trend_1d=int(tr), p_1d=float(p1), trend_gu_int16=int(g16[3]), trend_gu_nd_float32=int(g32[3]))
+                    if not (tr == sign * want and g16[3] == sign * want and g32[3] == sign * want and (p1 < 0.05) == bool(want)):
+                        ctx.fail("mann_kendall_trend (critical value)", dict(x=[int(v) for v in ya], n=n, tie_groups=list(groups), S=sign * s_ref, Z=sign * z_ref), got,
+                                 dict(trend=sign * want, p_below_alpha=bool(want)), note="flag = sign(Z) exactly when p < 0.05, i.e. |Z| > 1.959963984540054")
+    ctx.count("critical-value boundary series", nb)
+    # mk_p_value itself around the critical value (the flag and the returned p must tell the same story)
+    for zz in (1.9, 1.9599, 1.95996, 1.959963, 1.9599639, 1.95996399, 1.95997, 1.95999, 1.96, 1.9600001, 1.97, 2.5, 0.0, 1.0):
+        for sign in (1, -1):
+            pz, hz = stats.mk_p_value(sign * zz)
+            ctx.case(("mk_p_value", sign * zz))
+            if bool(hz) != (pz < 0.05) or bool(hz) != (zz > ZCRIT):
+                ctx.fail("mk_p_value", dict(z=sign * zz), dict(p=float(pz), h=int(hz)), dict(h=int(zz > ZCRIT)), note="h = 1 exactly when the returned p is below 0.05")
     # all-nodata pixel
     for dt in ("int16", "float32"):
         r = stats._mann_kendall_trend_gu_nd(np.full(7, -9999, dtype=dt), -9999.0)
